@@ -322,5 +322,359 @@ def gis_cases(rng, quick):
     return C
 
 
+# ---------------------------------------------------------------------------
+# catchment topologies x options x geometry of the second grid
+#
+# The buffers handed to the gis kernels are sized by the Python wrappers from the catchment
+# (area / filled area / boundary lengths) and from the other grid (nrows * ncols); which of them
+# is the larger depends on the topology of the catchment (holes: an interior sink, an inlet whose
+# upstream area is enclosed), on the options (filled, inlets, nval) and on the relative cell
+# sizes / extents of the two grids.  The classes below drive every Catchment method and the
+# functions taking a catchment over: topologies (with / without holes, one cell wide, touching
+# the edge of the flow direction grid, whole grid) x filled x inlets x nval at / around the
+# number of cells x second grids coarser / equal / finer, shifted, covering / partly covering /
+# one cell / one row / disjoint / empty x derived catchments (dictionary round trip, clone,
+# a + b, a - b: area and filled area no longer related).
+
+FDCODE = {(-1, -1): 32, (-1, 0): 64, (-1, 1): 128, (0, -1): 16, (0, 1): 1, (1, -1): 8, (1, 0): 4, (1, 1): 2}
+
+
+def tree_flowdir(nr, nc, cells, outlet, rng=None, roots=None):
+    """Flow directions [nr x nc] (row-major list) in which the cells of `cells` (set of
+    (row, col)) reachable from `outlet` through 8-neighbour moves inside `cells` drain to
+    `outlet` (breadth-first tree); `roots` = {(r, c): (rp, cp)} forces the parent of a cell
+    (it then starts its own tree inside `cells`).  Every other cell is a sink (0)."""
+    fd = [0] * (nr * nc)
+    parent = {outlet: None}
+    roots = roots or {}
+    forced = set(roots)
+    queue = [outlet]
+    order = sorted(FDCODE)
+    while queue:
+        nxt = []
+        for (r, c) in queue:
+            moves = list(order)
+            if rng is not None:
+                rng.shuffle(moves)
+            for dr, dc in moves:
+                q = (r + dr, c + dc)
+                if q in cells and q not in parent and q not in forced:
+                    parent[q] = (r, c)
+                    nxt.append(q)
+        queue = nxt
+    for q, par in roots.items():
+        parent[q] = par
+        queue = [q]
+        while queue:
+            nxt = []
+            for (r, c) in queue:
+                for dr, dc in order:
+                    z = (r + dr, c + dc)
+                    if z in cells and z not in parent:
+                        parent[z] = (r, c)
+                        nxt.append(z)
+            queue = nxt
+    for (r, c), par in parent.items():
+        if par is not None:
+            fd[r * nc + c] = FDCODE[(par[0] - r, par[1] - c)]
+    return fd
+
+
+def rect(r0, r1, c0, c1):
+    return {(r, c) for r in range(r0, r1 + 1) for c in range(c0, c1 + 1)}
+
+
+def topologies(rng, nrandom):
+    """[(name, nr, nc, flowdir, outlet cell, inlets or None, number of cells drained)]"""
+    T = []
+
+    def add(name, nr, nc, cells, outlet, inlets=None, roots=None, r=None):
+        fd = tree_flowdir(nr, nc, cells, outlet, r, roots)
+        T.append((name, nr, nc, fd, outlet[0] * nc + outlet[1],
+                  None if inlets is None else [q[0] * nc + q[1] for q in inlets], len(cells)))
+
+    # holes: the smallest one (four cells joined by their corners around a sink), a ring one cell
+    # wide, a thick ring with a 2 x 1 hole, two holes, a ring along the edge of the grid
+    add("diamond-ring", 5, 5, {(3, 2), (2, 1), (1, 2), (2, 3)}, (3, 2))
+    add("ring", 7, 8, rect(1, 5, 1, 6) - rect(2, 4, 2, 5), (5, 3))
+    add("thick-ring", 8, 8, rect(1, 6, 1, 6) - rect(3, 4, 3, 3), (6, 1))
+    add("two-holes", 6, 9, rect(1, 4, 1, 7) - {(2, 2), (3, 5), (2, 5)}, (4, 4))
+    add("edge-ring", 5, 6, rect(0, 4, 0, 5) - rect(1, 3, 1, 4), (4, 2))
+    # an inlet whose upstream area is enclosed by the catchment: the block in the middle drains
+    # to its cell X, X to the ring; with inlets=[X] the block is excluded (a hole), without it
+    # the catchment is the full rectangle
+    blk = rect(2, 4, 2, 4)
+    full = rect(1, 5, 1, 5)
+    ringc = full - blk
+    fd = tree_flowdir(7, 7, ringc, (5, 3))
+    fdb = tree_flowdir(7, 7, blk, (4, 3))
+    fd = [a or b for a, b in zip(fd, fdb)]
+    fd[4 * 7 + 3] = FDCODE[(1, 0)]               # X = (4, 3) drains to the outlet (5, 3)
+    T.append(("enclosed-inlet", 7, 7, fd, 5 * 7 + 3, [4 * 7 + 3], 25))
+    T.append(("enclosed-no-inlet", 7, 7, fd, 5 * 7 + 3, None, 25))
+    T.append(("inlet-upstream-of-inlet", 7, 7, fd, 5 * 7 + 3, [4 * 7 + 3, 3 * 7 + 3, 5 * 7 + 3], 25))
+    # no hole: a C (nearly closed), a path one cell wide, the whole grid, one cell, a full block
+    add("c-shape", 6, 6, rect(1, 4, 1, 4) - rect(2, 3, 2, 4), (4, 4))
+    snake = [(0, c) for c in range(6)] + [(1, 5)] + [(2, c) for c in range(5, -1, -1)] + [(3, 0)] + \
+            [(4, c) for c in range(6)]
+    add("snake", 5, 6, set(snake), (4, 5))
+    add("whole-grid", 4, 5, rect(0, 3, 0, 4), (3, 2))
+    add("one-cell", 3, 3, {(1, 1)}, (1, 1))
+    add("block", 6, 6, rect(1, 4, 2, 4), (4, 3))
+    add("row", 1, 7, rect(0, 0, 0, 6), (0, 6))
+    add("column", 7, 1, rect(0, 6, 0, 0), (0, 0))
+    # random blobs with random interior cells removed
+    for k in range(nrandom):
+        nr, nc = rng.randint(3, 9), rng.randint(3, 9)
+        r0, c0 = rng.randint(0, nr - 2), rng.randint(0, nc - 2)
+        r1, c1 = rng.randint(r0 + 1, nr - 1), rng.randint(c0 + 1, nc - 1)
+        cells = rect(r0, r1, c0, c1)
+        inner = sorted(rect(r0 + 1, r1 - 1, c0 + 1, c1 - 1))
+        for q in inner:
+            if rng.random() < 0.3:
+                cells.discard(q)
+        border = sorted(cells - set(inner))
+        outlet = rng.choice(border)
+        fd = tree_flowdir(nr, nc, cells, outlet, rng)
+        ndrained = sum(1 for x in fd if x) + 1
+        inl = None
+        if rng.random() < 0.4:
+            drained = [i for i, x in enumerate(fd) if x]
+            inl = sorted(rng.sample(drained, min(len(drained), rng.randint(1, 2)))) if drained else None
+        T.append((f"random-{k}", nr, nc, fd, outlet[0] * nc + outlet[1], inl, ndrained))
+    return T
+
+
+def second_grids(nr, nc, csz, xll, yll, ratios, shifts, rng, nextra):
+    """second grids relative to a flow direction grid [nr x nc] of cell size csz at (xll, yll):
+    mkgrid(...) expressions, coarser / equal / finer, shifted, of various extents"""
+    G = []
+    for ratio in ratios:
+        g = csz * ratio
+        for shift in shifts:
+            n1 = int(-(-(nc + 2) // ratio)) + 1
+            n0 = int(-(-(nr + 2) // ratio)) + 1
+            G.append(f"mkgrid({n0}, {n1}, None, np.float64, {g!r}, {xll + shift * csz!r}, {yll + shift * csz!r})")
+    for _ in range(nextra):
+        ratio = rng.choice(ratios + [1.5, 0.75, 1. / 3])
+        g = csz * ratio
+        kind = rng.choice(["partial", "one-cell", "one-row", "one-column", "disjoint", "inside", "empty", "huge-cells"])
+        if kind == "partial":       # covers the lower left part of the catchment only
+            n0, n1 = max(1, int(nr / ratio / 2)), max(1, int(nc / ratio / 2))
+            G.append(f"mkgrid({n0}, {n1}, None, np.float64, {g!r}, {xll - 0.5 * csz!r}, {yll - 0.5 * csz!r})")
+        elif kind == "one-cell":
+            G.append(f"mkgrid(1, 1, None, np.float64, {g!r}, {xll + csz * (nc // 2)!r}, {yll + csz * (nr // 2)!r})")
+        elif kind == "one-row":
+            G.append(f"mkgrid(1, {int(nc / ratio) + 2}, None, np.float64, {g!r}, {xll!r}, {yll + csz * (nr // 2)!r})")
+        elif kind == "one-column":
+            G.append(f"mkgrid({int(nr / ratio) + 2}, 1, None, np.float64, {g!r}, {xll + csz * (nc // 2)!r}, {yll!r})")
+        elif kind == "disjoint":
+            G.append(f"mkgrid(3, 3, None, np.float64, {g!r}, {xll + 100 * csz!r}, {yll - 50 * csz!r})")
+        elif kind == "inside":      # a small grid strictly inside the catchment's extent
+            G.append(f"mkgrid(2, 2, None, np.float64, {g!r}, {xll + csz * (nc // 2 - 0.3)!r}, {yll + csz * (nr // 2 - 0.3)!r})")
+        elif kind == "empty":
+            G.append(f"mkgrid({rng.choice([0, 0, 3])}, {rng.choice([0, 2])}, None, np.float64, {g!r}, {xll!r}, {yll!r})")
+        else:
+            G.append(f"mkgrid(2, 2, None, np.float64, {csz * 1000.!r}, {xll - 1000. * csz!r}, {yll - 1000. * csz!r})")
+    return G
+
+
+def catchment_cases(rng, quick):
+    C = []
+    tops = topologies(rng, 4 if quick else 30)
+    ratios = [2., 1., 0.5] if quick else [3., 2., 1., 0.5, 0.25, 0.1]
+    for ti, (name, nr, nc, fd, outlet, inlets, ncells) in enumerate(tops):
+        for gi, (csz, xll, yll) in enumerate(((1., 0., 0.), (0.25, 10.5, -3.))):
+            if gi and quick and ti % 3:
+                continue
+            cat = f"mkcat({nr}, {nc}, {fd!r}, {csz!r}, {xll!r}, {yll!r})"
+            inl = "" if inlets is None else f", {inlets!r}"
+            # (the default nval allocates three buffers of 10^6 cells: kept for one geometry only)
+            pre = f"c = {cat}; c.delineate_area({outlet}{inl}); " if gi else \
+                f"c = {cat}; c.delineate_area({outlet}, {inlets!r}, {nr * nc + 2 + rng.randint(0, 3)}); "
+            # --- Catchment.intersect: filled x geometry of the second grid
+            for g in second_grids(nr, nc, csz, xll, yll, ratios, (0., -0.25) if quick else (0., -0.25, -1.), rng,
+                                  3 if quick else 10):
+                for filled in (False, True):
+                    C.append(("intersect", pre + f"c.intersect({g}, filled={filled})"))
+            if gi:
+                continue
+            g1 = f"mkgrid({nr + 3}, {nc + 3}, None, np.float64, {csz!r}, {xll - csz!r}, {yll - csz!r})"
+            gh = f"mkgrid({2 * nr + 5}, {2 * nc + 5}, None, np.float64, {csz / 2!r}, {xll - csz!r}, {yll - csz!r})"
+            # --- nval at and around the number of cells of the area
+            for nval in sorted({ncells - 1, ncells, ncells + 1, ncells + 2, max(0, ncells // 2)}):
+                if nval >= 0:
+                    da = f"c = {cat}; c.delineate_area({outlet}{inl or ', None'}, {nval}); "
+                    C.append(("delineate_area", da + "c.delineate_boundary(); c.compute_flowpathlengths()"))
+                    C.append(("intersect", da + f"c.intersect({gh}, True)"))
+            # --- every method that sizes a buffer from the area / the filled area
+            C.append(("delineate_boundary", pre + "c.delineate_boundary()"))
+            C.append(("delineate_boundary", pre + f"c.delineate_boundary(np.ones({nr * nc}, dtype=np.int64))"))
+            C.append(("delineate_boundary", pre + f"m = np.zeros({nr * nc}, dtype=np.int64); m[c.idxcells_area] = 1; "
+                                                  "c.delineate_boundary(m)"))
+            C.append(("compute_flowpathlengths", pre + "c.compute_flowpathlengths()"))
+            C.append(("extent", pre + "c.extent()"))
+            for npts in (1, 2, ncells, ncells + 3):
+                pts = [[xll + csz * rng.uniform(-1, nc + 1), yll + csz * rng.uniform(-1, nr + 1)] for _ in range(npts)]
+                C.append(("voronoi", pre + f"hygrid.voronoi(c, np.array({pts!r}))"))
+            # --- derived catchments: stored representation, copies, unions and differences
+            C.append(("intersect", pre + f"d = Catchment.from_dict(c.to_dict()); d.intersect({gh}, True); "
+                                         f"d.intersect({g1}, False); d.delineate_boundary()"))
+            C.append(("intersect", pre + f"d = c.clone(); d.delineate_boundary(); d.intersect({gh}, True)"))
+            # a second catchment on the same flow direction grid (another outlet), then the union
+            # and the differences: the area is replaced, the filled area is the first operand's
+            o2 = next((i for i, x in enumerate(fd) if x and i != outlet), outlet)
+            two = pre + f"b = {cat}; b.delineate_area({o2}); "
+            for expr in ("c + b", "c - b", "b - c", "b + c"):
+                for filled in (False, True):
+                    C.append(("intersect", two + f"d = {expr}; d.intersect({gh}, filled={filled})"))
+                C.append(("delineate_boundary", two + f"d = {expr}; d.delineate_boundary(); d.extent()"))
+                C.append(("voronoi", two + f"d = {expr}; hygrid.voronoi(d, np.array([[{xll + csz!r}, {yll + csz!r}], "
+                                           f"[{xll!r}, {yll + 3 * csz!r}]]))"))
+            # area and filled area given independently (dictionary): filled smaller / larger /
+            # disjoint / with cells outside the grid
+            area = sorted(i for i, x in enumerate(fd) if x) + [outlet]
+            allc = list(range(nr * nc))
+            pairs = [(area, allc), (allc, area), (area, area[:1]), (area[:1], area), (area, []), ([], area),
+                     (area, [nr * nc + 5, -3] + area)]
+            if quick:
+                pairs = rng.sample(pairs, 3)
+            for a, f in pairs:
+                d = (f"{{'name': 'c', 'idxcell_outlet': {outlet}, 'idxinlets': None, 'idxcells_area': {a!r}, "
+                     f"'idxcells_area_filled': {f!r}, 'flowdir': mkgrid({nr}, {nc}, {fd!r}, np.int64).to_dict()}}")
+                for filled in (False, True):
+                    C.append(("intersect", f"c = Catchment.from_dict({d}); c.intersect({gh}, filled={filled})"))
+                C.append(("delineate_boundary", f"c = Catchment.from_dict({d}); c.delineate_boundary()"))
+                C.append(("compute_flowpathlengths", f"c = Catchment.from_dict({d}); c.compute_flowpathlengths()"))
+    return C
+
+
+# ---------------------------------------------------------------------------
+# shapes / layouts / dtypes of the arguments the Python wrappers derive buffer sizes from, and
+# extreme but legal sizes
+
+def layout_cases(rng, quick):
+    """The wrappers size the output from `len(x)`, `x.shape[0]`, `np.zeros_like(x)`, `0. * x`,
+    `np.atleast_2d(x).shape` ...: arrays with more or fewer dimensions than expected, column /
+    row vectors, 0-d values, lists, non-contiguous views, Fortran order, integer and single
+    precision dtypes, lengths that do not agree between arguments."""
+    C = []
+    vec = ["np.arange(6.)", "np.arange(12.)[::2]", "np.arange(6.).reshape(6, 1)", "np.arange(6.).reshape(1, 6)",
+           "np.arange(6.).reshape(2, 3)", "np.asfortranarray(np.arange(6.).reshape(3, 2))", "np.arange(6)",
+           "np.arange(6, dtype=np.float32)", "np.float64(3.)", "np.array(3.)", "[1., 2., 3.]", "np.zeros((0, 3))",
+           "np.zeros((2, 0))", "np.arange(24.).reshape(2, 3, 4)", "np.arange(6.)[::-1]", "np.arange(12.).reshape(6, 2)[:, 0]"]
+    for v in vec:
+        C.append(("aggregate", f"dutils.aggregate(np.array([0, 0, 1, 1, 2, 2]), {v})"))
+        C.append(("aggregate", f"x = {v}; dutils.aggregate(np.zeros(len(x), int), x, 1, 1)"))
+        C.append(("flathomogen", f"x = {v}; dutils.flathomogen(np.zeros(len(x), int), x)"))
+        C.append(("flathomogen", f"dutils.flathomogen({v}, np.arange(6.))"))
+        C.append(("islinear", f"qualitycontrol.islinear({v})"))
+        C.append(("islinear", f"qualitycontrol.islinear({v}, 3)"))
+        C.append(("eckhardt", f"signatures.eckhardt({v})"))
+        C.append(("anderson_darling_test", f"metrics.anderson_darling_test({v} / 7.)"))
+        C.append(("armodel_sim", f"armodels.armodel_sim(0.5, {v})"))
+        C.append(("armodel_sim", f"armodels.armodel_sim({v} / 100., np.arange(5.))"))
+        C.append(("armodel_residual", f"armodels.armodel_residual([0.5, 0.1], {v})"))
+        C.append(("armodel_residual", f"armodels.armodel_residual({v} / 100., np.arange(5.), 0.)"))
+        C.append(("pareto_front", f"sutils.pareto_front({v})"))
+        C.append(("crps", f"metrics.crps({v}, np.arange(18.).reshape(6, 3))"))
+        C.append(("crps", f"metrics.crps(np.arange(6.), {v})"))
+        C.append(("crps", f"x = {v}; metrics.crps(x, x)"))
+        C.append(("dscore", f"metrics.dscore(np.arange(6.), {v})"))
+        C.append(("dscore", f"metrics.dscore({v}, np.arange(18.).reshape(6, 3) % 5)"))
+        C.append(("dscore", f"x = {v}; metrics.dscore(x, x)"))
+        C.append(("cell2coord", f"mkgrid(3, 4).cell2coord({v})"))
+        C.append(("cell2rowcol", f"mkgrid(3, 4).cell2rowcol({v})"))
+        C.append(("coord2cell", f"mkgrid(3, 4).coord2cell({v})"))
+        C.append(("slice", f"mkgrid(3, 4).slice({v})"))
+        C.append(("upstream", f"mkcat(2, 2, [1, 4, 1, 0]).upstream({v})"))
+        C.append(("downstream", f"mkcat(2, 2, [1, 4, 1, 0]).downstream({v})"))
+        C.append(("voronoi", f"c = mkcat(2, 2, [1, 4, 1, 0]); c.delineate_area(3); hygrid.voronoi(c, {v})"))
+        C.append(("points_inside_polygon", f"gutils.points_inside_polygon({v}, np.array([[0., 0.], [4., 0.], [4., 4.]]))"))
+        C.append(("points_inside_polygon", f"gutils.points_inside_polygon(np.ones((3, 2)), {v})"))
+    for ins in ("np.zeros(6, np.int32)[::2]", "np.zeros((3, 1), np.int32)", "np.zeros(3, np.int32)", "np.zeros(4, np.int32)",
+                "np.zeros(2, np.int32)", "np.zeros(0, np.int32)"):
+        C.append(("points_inside_polygon", f"gutils.points_inside_polygon(np.ones((3, 2)), "
+                                           f"np.array([[0., 0.], [4., 0.], [4., 4.]]), inside={ins})"))
+    # grids of other dtypes / a grid whose data was replaced
+    for dt in ("np.int32", "np.uint8", "np.float32", "np.int64", "bool"):
+        g = f"mkgrid(3, 4, list(range(12)), {dt})"
+        C.append(("slice", f"{g}.slice([[0.5, 0.5], [3.2, 2.1], [10., 10.]])"))
+        C.append(("accumulate", f"hygrid.accumulate(mkgrid(3, 4, [1, 1, 1, 4, 1, 1, 1, 4, 1, 1, 1, 0], {dt}))"))
+        C.append(("accumulate", f"hygrid.accumulate(mkgrid(3, 4, [1, 1, 1, 4, 1, 1, 1, 4, 1, 1, 1, 0], np.int64), {g})"))
+        C.append(("slope", f"hygrid.slope(mkgrid(3, 4, [1, 1, 1, 4, 1, 1, 1, 4, 1, 1, 1, 0], np.int64), {g})"))
+        C.append(("delineate_river", f"hygrid.delineate_river(mkgrid(3, 4, [1, 1, 1, 4, 1, 1, 1, 4, 1, 1, 1, 0], {dt}), 0)"))
+        C.append(("delineate_area", f"c = Catchment('c', mkgrid(3, 4, [1, 1, 1, 4, 1, 1, 1, 4, 1, 1, 1, 0], {dt})); "
+                                    "c.delineate_area(11); c.delineate_boundary()"))
+    for shp in ("(4, 3)", "(3, 5)", "(2, 4)", "(0, 0)", "(1, 12)", "(12, 1)"):
+        nr_, nc_ = eval(shp)
+        C.append(("accumulate", f"hygrid.accumulate(mkgrid(3, 4, [1, 1, 1, 4, 1, 1, 1, 4, 1, 1, 1, 0], np.int64), mkgrid({nr_}, {nc_}))"))
+        C.append(("slope", f"hygrid.slope(mkgrid(3, 4, [1, 1, 1, 4, 1, 1, 1, 4, 1, 1, 1, 0], np.int64), mkgrid({nr_}, {nc_}))"))
+    # the river buffer at and around the length of the path (a path one cell wide)
+    snake = [(0, c) for c in range(6)] + [(1, 5)] + [(2, c) for c in range(5, -1, -1)] + [(3, 0)] + [(4, c) for c in range(6)]
+    fd = tree_flowdir(5, 6, set(snake), (4, 5))
+    for nval in (len(snake) - 1, len(snake), len(snake) + 1, 1, 2):
+        for up in (0, 17, 29):
+            C.append(("delineate_river", f"hygrid.delineate_river(mkgrid(5, 6, {fd!r}, np.int64), {up}, {nval})"))
+    # var2h: the number of periods comes from the time stamps (time zones, units, order)
+    for tz in ("None", "'UTC'", "'Australia/Sydney'", "'America/St_Johns'"):
+        for unit in ("ns", "us", "s"):
+            for st in (["2001-04-01 00:10", "2001-04-01 05:20"], ["2001-10-27 22:10", "2001-10-28 09:40"],
+                       ["2001-03-24 22:10", "2001-03-25 03:05", "2001-03-25 09:40"], ["2001-01-01 05:00", "2001-01-01 00:10"]):
+                for P in (3600, 1800):
+                    C.append(("var2h", f"dutils.var2h(pd.Series(np.arange({len(st)}.), index=pd.DatetimeIndex({st!r}, tz={tz})"
+                                       f".as_unit('{unit}')), {P})"))
+    if quick:
+        C = [x for i, x in enumerate(C) if i % 2 == rng.randrange(2) or x[0] in ("delineate_river",)]
+    return C
+
+
+def size_cases(rng, quick):
+    """Extreme but legal sizes: work areas proportional to a dimension (the ensemble size of
+    crps, the n x n matrix of dscore, the orders of armodels), long series, large grids, more
+    cells in the second grid than in the first and the converse."""
+    C = []
+    big = [200000] if quick else [149000, 200000, 1000000]
+    for n in big:
+        C.append(("crps", f"metrics.crps(np.array([1.]), np.arange({n}.).reshape(1, {n}))"))
+        C.append(("crps", f"metrics.crps(np.arange({n // 50}.), (np.arange({2 * (n // 50)}.) % 7).reshape({n // 50}, 2))"))
+        C.append(("aggregate", f"dutils.aggregate(np.arange({n}) // 30, np.ones({n}))"))
+        C.append(("flathomogen", f"dutils.flathomogen(np.arange({n}) // 30, np.ones({n}))"))
+        C.append(("islinear", f"qualitycontrol.islinear(np.arange({n}.) % 11, 1000)"))
+        C.append(("eckhardt", f"signatures.eckhardt(np.arange({n}.) % 11)"))
+        C.append(("armodel_sim", f"armodels.armodel_sim(np.ones(10) / 20., np.ones({n}))"))
+        C.append(("armodel_residual", f"armodels.armodel_residual(np.ones(10) / 20., np.ones({n}), 0.)"))
+        C.append(("anderson_darling_test", f"metrics.anderson_darling_test((np.arange({n}) % 97 + 0.5) / 97.)"))
+        C.append(("cell2coord", f"mkgrid(500, 500).cell2coord(np.arange({n}))"))
+        C.append(("coord2cell", f"mkgrid(500, 500).coord2cell(np.arange({2 * n}.).reshape({n}, 2) % 501)"))
+        C.append(("points_inside_polygon", f"gutils.points_inside_polygon(np.arange({2 * n}.).reshape({n}, 2) % 5, "
+                                           "np.array([[0., 0.], [4., 0.], [4., 4.]]))"))
+        C.append(("var2h", f"dutils.var2h(pd.Series(np.ones({n // 10}), index=pd.date_range('2001-01-01 00:07', "
+                           f"periods={n // 10}, freq='13min')))"))
+    for n in ([700] if quick else [700, 2000]):
+        C.append(("dscore", f"metrics.dscore(np.arange({n}.), (np.arange({3 * n}.) % 13).reshape({n}, 3))"))
+        C.append(("pareto_front", f"sutils.pareto_front((np.arange({3 * n}.) % 17).reshape({n}, 3))"))
+    for n in ([120] if quick else [120, 400]):
+        whole = (f"fd = np.ones(({n}, {n}), dtype=np.int64); fd[:, -1] = 4; fd[-1, -1] = 0; c = mkcat({n}, {n}, fd); "
+                 f"c.delineate_area({n * n - 1}); ")
+        C.append(("delineate_area", whole + "c.delineate_boundary(); c.compute_flowpathlengths()"))
+        for filled in (False, True):
+            C.append(("intersect", whole + f"c.intersect(mkgrid({n // 8 + 2}, {n // 8 + 2}, None, np.float64, 10., -5., -5.), {filled})"))
+            C.append(("intersect", whole + f"c.intersect(mkgrid({n // 2}, {2 * n + 3}, None, np.float64, 0.5, -1., -1.), {filled})"))
+        C.append(("voronoi", whole + f"hygrid.voronoi(c, np.arange({4 * n}.).reshape({2 * n}, 2) % {n})"))
+        C.append(("accumulate", f"fd = np.ones(({n}, {n}), dtype=np.int64); fd[:, -1] = 4; fd[-1, -1] = 0; "
+                                f"hygrid.accumulate(mkgrid({n}, {n}, fd, np.int64), nprint=7)"))
+        C.append(("delineate_river", f"fd = np.ones(({n}, {n}), dtype=np.int64); fd[:, -1] = 4; fd[-1, -1] = 0; "
+                                     f"hygrid.delineate_river(mkgrid({n}, {n}, fd, np.int64), 0)"))
+    # a small catchment and a second grid with far more cells than the catchment, and a second
+    # grid with a single cell
+    small = "c = mkcat(3, 3, [2, 4, 8, 1, 0, 16, 128, 64, 32]); c.delineate_area(4); "
+    for filled in (False, True):
+        C.append(("intersect", small + f"c.intersect(mkgrid(1500, 1500, None, np.float64, 0.01, -5., -5.), {filled})"))
+        C.append(("intersect", small + f"c.intersect(mkgrid(1, 1, None, np.float64, 0.01, 1., 1.), {filled})"))
+    return C
+
+
 def all_cases(rng, quick):
-    return data_cases(rng, quick) + stat_cases(rng, quick) + gis_cases(rng, quick)
+    return data_cases(rng, quick) + stat_cases(rng, quick) + gis_cases(rng, quick) + catchment_cases(rng, quick) \
+        + layout_cases(rng, quick) + size_cases(rng, quick)
